@@ -402,7 +402,7 @@ dec!(c25_o2_q_list1_inner0_n15, dec_list1, 15, 0);
 dec!(c25_o2_t_list1_inner1_n15, dec_list1, 15, 1);
 dec!(c25_o2_q_list1_inner2_n15, dec_list1, 15, 2);
 dec!(c25_o2_t_list1_inner3_n15, dec_list1, 15, 3);
-dec!(c25_o2_q_list1_inner4_n15, dec_list1, 15, 4);
+dec!(c25_o2_a_list1_inner4_n15, dec_list1, 15, 4);
 dec!(c25_o2_t_list1_inner5_n15, dec_list1, 15, 5);
 dec!(c25_o2_t_list1_inner6_n15, dec_list1, 15, 6);
 dec!(c25_o2_a_list1_inner7_n15, dec_list1, 15, 7);
@@ -439,6 +439,6 @@ macro_rules! alloc {
 }
 alloc!(c25_o3_q_alloc_list_n5, 5, 7);
 alloc!(c25_o3_q_alloc_map_n5, 5, 8);
-alloc!(c25_o3_q_alloc_string_n5, 5, 4);
+alloc!(c25_o3_a_alloc_string_n5, 5, 4);
 alloc!(c25_o3_q_alloc_blob_n5, 5, 6);
 alloc!(c25_o3_t_alloc_list_n6, 6, 7);
